@@ -12,6 +12,7 @@ import (
 	"net"
 	"net/netip"
 	"os"
+	"os/signal"
 	"path/filepath"
 	"runtime"
 	"sync"
@@ -529,6 +530,28 @@ func (d *drv) exec(c Ev) {
 		d.env(c.Api, c.O, c.N)
 	case "PollB":
 		d.poll()
+	case "WaitSig":
+		// block in RunOneFor (D >= 1 ms) or RunOne (D < 0) while a helper interrupts
+		// the loop's OS thread with a signal after N ms
+		tid := unix.Gettid()
+		fired := make(chan struct{})
+		go func() {
+			time.Sleep(time.Duration(c.N) * time.Millisecond)
+			_ = unix.Tgkill(os.Getpid(), tid, syscall.SIGUSR1)
+			close(fired)
+		}()
+		d.emit(Ev{Ev: "WaitB", N: c.N, D: c.D})
+		t := time.Now()
+		var err error
+		if c.D < 0 {
+			err = d.ioc.RunOne()
+		} else {
+			err = d.ioc.RunOneFor(time.Duration(c.D) * time.Millisecond)
+		}
+		el := int(time.Since(t) / time.Millisecond)
+		<-fired
+		cls, note := errClass(err)
+		d.emit(Ev{Ev: "WaitE", Err: cls, N: el, Note: note})
 	}
 }
 
@@ -737,7 +760,7 @@ func parse(h []Ev) (map[string][]Ev, Ev) {
 			if len(stack) > 1 {
 				stack = stack[:len(stack)-1]
 			}
-		case "Call", "CancelB", "CloseB", "PostE", "TSchedB", "TCancelE", "TCloseE", "Env", "PollB":
+		case "Call", "CancelB", "CloseB", "PostE", "TSchedB", "TCancelE", "TCloseE", "Env", "PollB", "WaitSig":
 			if e.Note != "drain" { // the model's drain phase is not replayed: the driver has its own
 				script[cur] = append(script[cur], e)
 			}
@@ -914,6 +937,14 @@ func (d *drv) runPending() {
 
 // Run replays every history of a.In and writes the trace to a.Out.
 func Run(a tr.Args) error {
+	// SIGUSR1 is used to interrupt the loop's wait (class "signal"); with a
+	// handler installed the default action (terminate) does not apply
+	sigs := make(chan os.Signal, 64)
+	signal.Notify(sigs, syscall.SIGUSR1)
+	go func() {
+		for range sigs {
+		}
+	}()
 	w, err := tr.NewWriter(a.Out)
 	if err != nil {
 		return err
